@@ -2,17 +2,20 @@ package main
 
 import (
 	"context"
+	"encoding/binary"
 	"encoding/hex"
 	"fmt"
 	"os"
 	"path/filepath"
 	"runtime"
+	"sort"
 	"strconv"
 	"strings"
 	"sync"
 	"time"
 
 	"github.com/ipld/go-storethehash/store"
+	"github.com/ipld/go-storethehash/store/index"
 	mhprimary "github.com/ipld/go-storethehash/store/primary/multihash"
 	"github.com/ipld/go-storethehash/store/verifhook"
 )
@@ -431,7 +434,67 @@ func (e *schedEngine) Exec(op *Op) string {
 		if ferr != nil {
 			res = "flush-err"
 		}
-		return res + " reads=" + strings.Join(out, ",")
+		res += " reads=" + strings.Join(out, ",")
+		if op.Arg("acct") == "1" {
+			res += " " + e.acct()
+		}
+		return res
 	}
 	return "bad-op"
+}
+
+// acct lists, after quiescence: the locations named by live index entries (cur), the recorded locations (freelist
+// pool + file + .gc) and every non-deleted record found by scanning the primary files (live).
+func (e *schedEngine) acct() string {
+	var cur, fl, live []string
+	idx := e.st.Index()
+	for _, b := range idx.VerifNonEmptyBuckets() {
+		data, ok, err := idx.VerifBucketRecords(b)
+		if err != nil || !ok {
+			continue
+		}
+		it := index.NewRecordListRaw(data).Iter()
+		for !it.Done() {
+			r := it.Next()
+			cur = append(cur, fmt.Sprintf("%d:%d", r.Block.Offset, r.Block.Size))
+		}
+	}
+	for _, b := range e.st.VerifFreeList().VerifPool() {
+		fl = append(fl, fmt.Sprintf("%d:%d", b.Offset, b.Size))
+	}
+	ip := filepath.Join(e.dir, "storethehash.index")
+	for _, name := range []string{ip + ".free", ip + ".free.gc"} {
+		data, err := os.ReadFile(name)
+		if err != nil {
+			continue
+		}
+		for i := 0; i+12 <= len(data); i += 12 {
+			fl = append(fl, fmt.Sprintf("%d:%d", binary.LittleEndian.Uint64(data[i:]), binary.LittleEndian.Uint32(data[i+8:])))
+		}
+	}
+	if e.mp != nil {
+		max := int64(e.mp.FileSize())
+		for fn := 0; fn < 4096; fn++ {
+			data, err := os.ReadFile(fmt.Sprintf("%s.%d", filepath.Join(e.dir, "storethehash.data"), fn))
+			if err != nil {
+				if fn > 64 {
+					break
+				}
+				continue
+			}
+			for pos := int64(0); pos+4 <= int64(len(data)); {
+				sz := binary.LittleEndian.Uint32(data[pos:])
+				if sz&(1<<31) != 0 {
+					pos += 4 + int64(sz^(1<<31))
+					continue
+				}
+				live = append(live, fmt.Sprintf("%d:%d", int64(fn)*max+pos, sz))
+				pos += 4 + int64(sz)
+			}
+		}
+	}
+	sort.Strings(cur)
+	sort.Strings(fl)
+	sort.Strings(live)
+	return "cur=" + strings.Join(cur, ",") + " fl=" + strings.Join(fl, ",") + " live=" + strings.Join(live, ",")
 }
